@@ -584,3 +584,75 @@ func appendCollects(p *Prog, fn *Fn, v types.Object, isSrc func(ast.Expr) bool) 
 	}
 	return true, ""
 }
+
+// mayDropElements: fn builds a list in a loop and the step that adds an element does not run for every element
+// of what the loop ranges over — it sits under a condition, or a conditional continue/break jumps past it. A
+// filter or a de-duplication has this shape; an element-wise copy or conversion does not.
+func mayDropElements(p *Prog, fn *Fn) (bool, string) {
+	if fn == nil || fn.Body == nil {
+		return false, ""
+	}
+	why := ""
+	ast.Inspect(fn.Body, func(n ast.Node) bool {
+		body := (*ast.BlockStmt)(nil)
+		switch x := n.(type) {
+		case *ast.RangeStmt:
+			body = x.Body
+		case *ast.ForStmt:
+			body = x.Body
+		}
+		if body == nil || why != "" {
+			return true
+		}
+		adds := func(m ast.Node) bool {
+			found := false
+			ast.Inspect(m, func(k ast.Node) bool {
+				switch y := k.(type) {
+				case *ast.CallExpr:
+					if p.Builtin(fn, y) == "append" {
+						found = true
+					}
+				case *ast.AssignStmt:
+					for _, l := range y.Lhs {
+						if ie, ok := ast.Unparen(l).(*ast.IndexExpr); ok {
+							if t := p.TypeOf(fn, ie.X); t != nil {
+								if _, isSl := t.Underlying().(*types.Slice); isSl {
+									found = true
+								}
+							}
+						}
+					}
+				}
+				return true
+			})
+			return found
+		}
+		if !adds(body) {
+			return true
+		}
+		ast.Inspect(body, func(m ast.Node) bool {
+			switch y := m.(type) {
+			case *ast.FuncLit:
+				return false
+			case *ast.IfStmt:
+				jumps := false
+				ast.Inspect(y, func(k ast.Node) bool {
+					if br, ok := k.(*ast.BranchStmt); ok && (br.Tok == token.CONTINUE || br.Tok == token.BREAK) {
+						jumps = true
+					}
+					return true
+				})
+				if jumps || adds(y.Body) || (y.Else != nil && adds(y.Else)) {
+					why = "the loop at " + p.Pos(n.Pos()) + " adds an element only under the condition at " + p.Pos(y.Pos())
+				}
+			case *ast.SwitchStmt, *ast.TypeSwitchStmt:
+				if adds(y) {
+					why = "the loop at " + p.Pos(n.Pos()) + " adds an element only in some cases of the switch at " + p.Pos(y.Pos())
+				}
+			}
+			return true
+		})
+		return true
+	})
+	return why != "", why
+}
